@@ -83,7 +83,13 @@ class LazyList:
                 position.stop,
                 position.step or 1,
             )
+            from_the_end = (
+                step < 0 or (start or 0) < 0 or (stop is not None and stop < 0)
+            )
             if stop is None:
+                if from_the_end:
+                    # Counting from the end needs the whole list
+                    return LazyList(self.listify()[position])
 
                 @lazylist
                 def infinite_index():
@@ -94,14 +100,12 @@ class LazyList:
 
                 return infinite_index()
             else:
+                if from_the_end:
+                    return self.listify()[position]
                 ret = []
-                if step < 0:
-                    return LazyList(
-                        itertools.islice(self.listify(), start, stop, step)
-                    )
-                if stop < 0:
-                    stop = len(self) + stop
                 for i in range(start or 0, stop, step):
+                    if not self.has_ind(i):
+                        break
                     ret.append(self[i])
                 return ret
         else:
